@@ -2,6 +2,7 @@ package lossy
 
 import (
 	"encoding/binary"
+	"fmt"
 	"sync"
 
 	"github.com/deepteams/webp/internal/bitio"
@@ -38,6 +39,19 @@ func (enc *VP8Encoder) emitFrame() ([]byte, error) {
 	}
 	enc.stats.HeaderSize = 10 + len(part0) // frame tag + pic header + partition 0
 	enc.stats.Residuals = tokenSize
+
+	// The frame tag stores the length of partition 0 in 19 bits and the
+	// partition table stores each token partition size in 24 bits; a larger
+	// partition cannot be represented (libwebp: PARTITION0_OVERFLOW /
+	// PARTITION_OVERFLOW).
+	if len(part0) >= VP8MaxPartition0Size {
+		return nil, fmt.Errorf("lossy: partition 0 too large (%d bytes, limit %d); use a lower Quality or more Segments", len(part0), VP8MaxPartition0Size)
+	}
+	for i := 0; i < len(tokenParts)-1; i++ {
+		if len(tokenParts[i]) >= VP8MaxPartitionSize {
+			return nil, fmt.Errorf("lossy: token partition %d too large (%d bytes, limit %d)", i, len(tokenParts[i]), VP8MaxPartitionSize)
+		}
+	}
 
 	// Frame tag (3 bytes) + picture header (7 bytes for keyframe).
 	return enc.assembleFrame(part0, tokenParts), nil
